@@ -149,8 +149,8 @@ type Node struct {
 	Crashed   bool
 	Faulty    bool // was restarted with amnesia in this run (counts as faulty)
 	Restarts  int
-	Silent    bool // down from the start, never comes back
-	Synced    int  // blocks adopted through ledger synchronisation
+	Silent    bool          // down from the start, never comes back
+	Synced    int           // blocks adopted through ledger synchronisation
 	Offset    time.Duration // per-node clock offset
 
 	// application: ledger
@@ -172,11 +172,11 @@ type Node struct {
 	FailBlock    int  // ProcessBlock (anti-MEV only) fails this many more times
 	RejectBlocks bool // VerifyBlock returns false regardless of content
 
-	Log  []Event
-	Cur  *Call
-	Seen map[uint32][]Payload // payloads handed to OnReceive (incl. embedded), by height
+	Log    []Event
+	Cur    *Call
+	Seen   map[uint32][]Payload // payloads handed to OnReceive (incl. embedded), by height
 	Direct map[uint32][]Payload // payloads handed to OnReceive directly, by height
-	Own  map[uint32][]Payload // payloads broadcast, by height
+	Own    map[uint32][]Payload // payloads broadcast, by height
 
 	// per-height bookkeeping used by monitors
 	Accepted    map[uint32][]*vt.Block // blocks for which ProcessBlock returned nil
